@@ -247,12 +247,17 @@ def check_crate(fx, rep, crate, cn):
             item_blocks = {b for body in [pn] for b, t in body.iter_terms('call') if b in region and t['callee'].get('name') == 'set_continues'}
             bad = [b for b in item_blocks if rets & pn.reachable(b, avoid=sets) and not any(pn.dominates(s_, b) for s_ in sets)]
             det['flag_set_on_item_paths'] = not bad
-            ok = bool(sets) and not bad
+            # ... and on no path that answers Pending: a poll that found nothing yet must leave the stream alive (`ready!` hides that return)
+            pend = {b for b, i, s in pn.iter_assigns() if s['rv']['k'] == 'aggr' and s['rv'].get('variant') == 'Pending'}
+            early = sorted(s_ for s_ in sets if pend & pn.reachable(s_))
+            det['flag_set_before_pending_return'] = [C.where(pn, s_) for s_ in early]
+            ok = bool(sets) and not bad and not early
         res['oneshot_idiom'] = kind
     rep.check(ok, 'R20.3', '%s|%s|oneshot-terminates-after-one-item' % (cn, pn.path), C.where(pn, ot),
               'one-shot arm: a terminated test guards the poll, its true edge returns Ready(None) without polling%s' % (
-                  ', and the flag is set on every path that yields the item' if guard and guard[2] == 'flag' else ''),
-              'the one-shot arm can poll its receiver after the single reply was delivered or yields more than one item', det)
+                  ', the flag is set on every path that yields the item and on no path that can still answer Pending' if guard and guard[2] == 'flag' else ''),
+              'the one-shot arm can poll its receiver after the single reply was delivered, yields more than one item, or marks the stream terminated on a '
+              'path that answers Pending (the reply that arrives later is never delivered)', det)
     # ---- R20.4 stream() subscribes itself
     st = [b for b in mod_bodies if b.name == 'stream' and b.kind == 'AssocFn' and b.impl_self and 'State' in b.impl_self]
     if not st:
